@@ -116,3 +116,14 @@ impl<'this> OwningIovec<'this> {
 // N9 alias for std::io::Error::other(e: DecodingError) (generic over Into<Box<dyn Error>>)
 #[verifier::external_body]
 fn io_error_other_dec(e: DecodingError) -> std::io::Error { unimplemented!() }
+
+// ---- assumed: the consumer view.  Handing out (and using) a ConsumingIovec does not change the logical
+// stream `bytes()` nor the pending set (consumption is tracked separately: C03, not claimed).
+#[verifier::external_body]
+struct ConsumingIovec<'a> { _p: std::marker::PhantomData<&'a u8> }
+impl<'this> OwningIovec<'this> {
+    #[verifier::external_body]
+    fn consumer(&mut self) -> (r: ConsumingIovec<'_>)
+        ensures final(self).bytes() == old(self).bytes(), final(self).pending() == old(self).pending()
+    { unimplemented!() }
+}
